@@ -518,11 +518,13 @@ ssize_t __wrap_recv(int fd, void *buf, size_t len, int flags) {
         nd.handler_frame = f.id;
         g_handler_node = &nd;
     }
-    w.log("recv", f.id, n, f.data.data(), n);
+    size_t ret = n;
+    if ((flags & MSG_TRUNC) && f.data.size() > n) ret = f.data.size();  // datagram sockets: MSG_TRUNC reports the real length
+    w.log("recv", f.id, ret, f.data.data(), n);
     w.count("ev.recv");
     if (f.data.size() > len) w.count("ev.recv_truncated");
     if (w.hooks.on_recv) w.hooks.on_recv(w, w.cur_node_id(), fd, f, n);
-    return (ssize_t)n;
+    return (ssize_t)ret;
 }
 
 ssize_t __wrap_sendto(int fd, const void *buf, size_t len, int flags, const struct sockaddr *addr, socklen_t alen) {
